@@ -41,6 +41,13 @@ pub fn cmd(args: &[String]) -> i32 {
     for line in inp.lines() {
         let line = line.expect("read");
         let Ok(mut b) = serde_json::from_str::<Value>(&line) else { continue };
+        if let Some(Value::Array(dbs)) = b.get("docbodies") {
+            let docs: Vec<Value> = dbs.iter().map(|d| Value::String(doc_html(d))).collect();
+            b["docs"] = Value::Array(docs);
+            if let Some(o) = b.as_object_mut() { o.remove("docbodies"); }
+            writeln!(out, "{}", b).expect("write");
+            continue;
+        }
         let bodies: Vec<String> = match b.get("bodies") { Some(Value::Array(bs)) => bs.iter().map(doc_html).collect(), _ => vec![doc_html(&b["body"])] };
         if let Some(runs) = b.get_mut("runs").and_then(|r| r.as_array_mut()) {
             for r in runs.iter_mut() {
